@@ -45,3 +45,50 @@ def run(ctx, R):
                  'a transaction other than the main one writes only '
                  'auxiliary records', ws, func=root)
     R.count('R18c', m, 41)
+
+
+def independent_uses(ctx, R, rule):
+    """`.independent` opens a separate transaction inside a request: only
+    the provider reload of replace_all (a reader) may use it."""
+    import ast
+    from psa.model import src
+    allowed = {('placement.objects.allocation:replace_all', 'reader')}
+    bad = []
+    n = 0
+    for f in ctx.prog.funcs:
+        if f.module.name.startswith('placement.cmd'):
+            continue
+        nodes = list(ast.walk(f.node))
+        for x in nodes:
+            if isinstance(x, ast.Attribute) and x.attr == 'independent':
+                # nested functions are visited on their own
+                owner = x
+                skip = False
+                while owner is not None and owner is not f.node:
+                    owner = getattr(owner, '_parent', None)
+                    if isinstance(owner, (ast.FunctionDef,
+                                          ast.AsyncFunctionDef)) and \
+                            owner is not f.node:
+                        skip = True
+                        break
+                if skip:
+                    continue
+                n += 1
+                kind = x.value.attr if isinstance(x.value,
+                                                  ast.Attribute) else '?'
+                if (f.qbase, kind) not in allowed:
+                    bad.append('%s %s' % (f.loc(x), src(x)))
+    R.ob(rule, 'independent-transactions', not bad,
+         'no write of a request runs in a transaction of its own: '
+         '.independent is used only for the read-only provider reload of '
+         'the allocation retry', bad)
+    return n
+
+
+_run_c18 = run
+
+
+def run(ctx, R):
+    _run_c18(ctx, R)
+    n = independent_uses(ctx, R, 'R18d')
+    R.count('R18d', n, 1)
